@@ -1,752 +1,144 @@
-// SPIKE ONLY (feasibility probe for DESIGN.md) -- not framework code.
-use anchor_lang::{InstructionData, ToAccountMetas};
-use solana_program::{
-    account_info::AccountInfo,
-    entrypoint::ProgramResult,
-    instruction::{AccountMeta, Instruction},
-    program_error::ProgramError,
-    program_pack::Pack,
-    program_stubs,
-    pubkey::Pubkey,
-    system_instruction::SystemInstruction,
-    system_program,
-};
-use std::cell::RefCell;
-use std::collections::BTreeMap;
+use mfv::common::*;
+use mfv::outln;
+use serde_json::{json, Value};
+use std::time::Instant;
 
-#[derive(Clone, Debug, Default, PartialEq)]
-struct Acct {
-    lamports: u64,
-    data: Vec<u8>,
-    owner: Pubkey,
-    executable: bool,
+fn usage() -> ! {
+    eprintln!("usage: mfv <ID> <quick|thorough> | mfv <ID> --replay <path>");
+    std::process::exit(2)
 }
-
-thread_local! {
-    static CLOCK: RefCell<solana_program::clock::Clock> = RefCell::new(Default::default());
-    static STACK: RefCell<Vec<Pubkey>> = RefCell::new(vec![]);
-    static LOGS: RefCell<Vec<String>> = RefCell::new(vec![]);
-}
-
-struct Stubs;
-impl program_stubs::SyscallStubs for Stubs {
-    fn sol_log(&self, m: &str) {
-        LOGS.with(|l| l.borrow_mut().push(m.to_string()));
-    }
-    fn sol_log_data(&self, _f: &[&[u8]]) {}
-    fn sol_get_clock_sysvar(&self, var_addr: *mut u8) -> u64 {
-        CLOCK.with(|c| unsafe { *(var_addr as *mut solana_program::clock::Clock) = c.borrow().clone() });
-        0
-    }
-    fn sol_get_rent_sysvar(&self, var_addr: *mut u8) -> u64 {
-        unsafe { *(var_addr as *mut solana_program::rent::Rent) = solana_program::rent::Rent::default() };
-        0
-    }
-    fn sol_get_stack_height(&self) -> u64 {
-        STACK.with(|s| s.borrow().len() as u64)
-    }
-    fn sol_invoke_signed(&self, ix: &Instruction, ais: &[AccountInfo], seeds: &[&[&[u8]]]) -> ProgramResult {
-        let caller = STACK.with(|s| *s.borrow().last().unwrap());
-        let pda_signers: Vec<Pubkey> = seeds
-            .iter()
-            .map(|s| Pubkey::create_program_address(s, &caller).map_err(|_| ProgramError::InvalidSeeds))
-            .collect::<Result<_, _>>()?;
-        let mut callee_ais = vec![];
-        for m in &ix.accounts {
-            let ai = ais.iter().find(|a| *a.key == m.pubkey).ok_or(ProgramError::NotEnoughAccountKeys)?;
-            let mut n = ai.clone();
-            if m.is_signer && !(ai.is_signer || pda_signers.contains(ai.key)) {
-                return Err(ProgramError::MissingRequiredSignature);
-            }
-            if m.is_writable && !ai.is_writable {
-                return Err(ProgramError::Custom(0xdead_0001)); // privilege escalation
-            }
-            n.is_signer = m.is_signer;
-            n.is_writable = m.is_writable;
-            callee_ais.push(n);
-        }
-        STACK.with(|s| s.borrow_mut().push(ix.program_id));
-        let r = dispatch(&ix.program_id, &callee_ais, &ix.data);
-        STACK.with(|s| s.borrow_mut().pop());
-        r
-    }
-}
-
-fn dispatch(pid: &Pubkey, ais: &[AccountInfo], data: &[u8]) -> ProgramResult {
-    if *pid == marginfi::ID {
-        let ais: &[AccountInfo] = unsafe { std::mem::transmute(ais) };
-        marginfi::entry(pid, ais, data)
-    } else if *pid == spl_token::ID {
-        spl_token::processor::Processor::process(pid, ais, data)
-    } else if *pid == spl_token_2022::ID {
-        spl_token_2022::processor::Processor::process(pid, ais, data)
-    } else if *pid == system_program::ID {
-        system(ais, data)
-    } else if *pid == proxy_id() {
-        // data = inner program id (32) + inner data; accounts = inner accounts (same flags)
-        let inner_pid = Pubkey::new_from_array(data[..32].try_into().unwrap());
-        let metas: Vec<AccountMeta> = ais.iter().map(|a| AccountMeta { pubkey: *a.key, is_signer: a.is_signer, is_writable: a.is_writable }).collect();
-        let ix = Instruction { program_id: inner_pid, accounts: metas, data: data[32..].to_vec() };
-        solana_program::program::invoke(&ix, ais)
-    } else {
-        Err(ProgramError::IncorrectProgramId)
-    }
-}
-
-fn proxy_id() -> Pubkey { Pubkey::new_from_array([7u8; 32]) }
-
-fn system(ais: &[AccountInfo], data: &[u8]) -> ProgramResult {
-    let ix: SystemInstruction = bincode_de(data)?;
-    match ix {
-        SystemInstruction::CreateAccount { lamports, space, owner } => {
-            let (from, to) = (&ais[0], &ais[1]);
-            if !from.is_signer || !to.is_signer {
-                return Err(ProgramError::MissingRequiredSignature);
-            }
-            if **to.lamports.borrow() != 0 || to.data_len() != 0 || *to.owner != system_program::ID {
-                return Err(ProgramError::AccountAlreadyInitialized);
-            }
-            if **from.lamports.borrow() < lamports {
-                return Err(ProgramError::InsufficientFunds);
-            }
-            **from.lamports.borrow_mut() -= lamports;
-            **to.lamports.borrow_mut() += lamports;
-            to.realloc(space as usize, true)?;
-            to.assign(&owner);
-            Ok(())
-        }
-        SystemInstruction::Transfer { lamports } => {
-            let (from, to) = (&ais[0], &ais[1]);
-            if !from.is_signer {
-                return Err(ProgramError::MissingRequiredSignature);
-            }
-            if **from.lamports.borrow() < lamports {
-                return Err(ProgramError::InsufficientFunds);
-            }
-            **from.lamports.borrow_mut() -= lamports;
-            **to.lamports.borrow_mut() += lamports;
-            Ok(())
-        }
-        SystemInstruction::Allocate { space } => ais[0].realloc(space as usize, true),
-        SystemInstruction::Assign { owner } => {
-            ais[0].assign(&owner);
-            Ok(())
-        }
-        _ => Err(ProgramError::InvalidInstructionData),
-    }
-}
-
-fn bincode_de(data: &[u8]) -> Result<SystemInstruction, ProgramError> {
-    solana_program::program_utils::limited_deserialize(data, 1232).map_err(|_| ProgramError::InvalidInstructionData)
-}
-
-struct Vm {
-    accts: BTreeMap<Pubkey, Acct>,
-}
-
-impl Vm {
-    fn exec(&mut self, ix: &Instruction) -> ProgramResult {
-        // serialize in entrypoint layout
-        let mut uniq: Vec<(Pubkey, bool, bool)> = vec![];
-        let mut order: Vec<usize> = vec![];
-        for m in &ix.accounts {
-            if let Some(i) = uniq.iter().position(|u| u.0 == m.pubkey) {
-                uniq[i].1 |= m.is_signer;
-                uniq[i].2 |= m.is_writable;
-                order.push(i);
-            } else {
-                uniq.push((m.pubkey, m.is_signer, m.is_writable));
-                order.push(uniq.len() - 1);
-            }
-        }
-        let mut buf: Vec<u64> = vec![];
-        let mut bytes: Vec<u8> = vec![];
-        bytes.extend_from_slice(&(ix.accounts.len() as u64).to_le_bytes());
-        let mut first_pos: Vec<Option<usize>> = vec![None; uniq.len()];
-        for (pos, &ui) in order.iter().enumerate() {
-            if let Some(fp) = first_pos[ui] {
-                bytes.push(fp as u8);
-                bytes.extend_from_slice(&[0u8; 7]);
-                continue;
-            }
-            first_pos[ui] = Some(pos);
-            let (k, s, w) = uniq[ui];
-            let a = self.accts.get(&k).cloned().unwrap_or(Acct { owner: system_program::ID, ..Default::default() });
-            bytes.push(u8::MAX);
-            bytes.push(s as u8);
-            bytes.push(w as u8);
-            bytes.push(a.executable as u8);
-            bytes.extend_from_slice(&[0u8; 4]);
-            bytes.extend_from_slice(k.as_ref());
-            bytes.extend_from_slice(a.owner.as_ref());
-            bytes.extend_from_slice(&a.lamports.to_le_bytes());
-            bytes.extend_from_slice(&(a.data.len() as u64).to_le_bytes());
-            bytes.extend_from_slice(&a.data);
-            bytes.extend(std::iter::repeat(0u8).take(10240));
-            while bytes.len() % 8 != 0 {
-                bytes.push(0);
-            }
-            bytes.extend_from_slice(&0u64.to_le_bytes());
-        }
-        bytes.extend_from_slice(&(ix.data.len() as u64).to_le_bytes());
-        bytes.extend_from_slice(&ix.data);
-        bytes.extend_from_slice(ix.program_id.as_ref());
-        buf.resize((bytes.len() + 7) / 8, 0);
-        let p = buf.as_mut_ptr() as *mut u8;
-        unsafe { std::ptr::copy_nonoverlapping(bytes.as_ptr(), p, bytes.len()) };
-        let (pid, ais, data) = unsafe { solana_program::entrypoint::deserialize(p) };
-        STACK.with(|s| {
-            s.borrow_mut().clear();
-            s.borrow_mut().push(*pid)
-        });
-        let r = std::panic::catch_unwind(std::panic::AssertUnwindSafe(|| dispatch(pid, &ais, data)))
-            .unwrap_or(Err(ProgramError::Custom(0xdead_beef)));
-        if r.is_ok() {
-            for (pos, &ui) in order.iter().enumerate() {
-                if first_pos[ui] != Some(pos) {
-                    continue;
-                }
-                let ai = &ais[pos];
-                let new = Acct {
-                    lamports: **ai.lamports.borrow(),
-                    data: ai.data.borrow().to_vec(),
-                    owner: *ai.owner,
-                    executable: ai.executable,
-                };
-                self.accts.insert(*ai.key, new);
-            }
-        }
-        r
-    }
-}
-
-impl Vm {
-    fn exec_tx(&mut self, ixs: &[Instruction]) -> Result<(), (usize, ProgramError)> {
-        use solana_program::sysvar::instructions::{construct_instructions_data, BorrowedAccountMeta, BorrowedInstruction, store_current_index};
-        let snap = self.accts.clone();
-        let b: Vec<BorrowedInstruction> = ixs.iter().map(|ix| BorrowedInstruction {
-            program_id: &ix.program_id,
-            accounts: ix.accounts.iter().map(|m| BorrowedAccountMeta { pubkey: &m.pubkey, is_signer: m.is_signer, is_writable: m.is_writable }).collect(),
-            data: &ix.data,
-        }).collect();
-        let mut data = construct_instructions_data(&b);
-        for (i, ix) in ixs.iter().enumerate() {
-            store_current_index(&mut data, i as u16);
-            self.accts.insert(solana_program::sysvar::instructions::ID, Acct { lamports: 1, data: data.clone(), owner: solana_program::sysvar::ID, executable: false });
-            if let Err(e) = self.exec(ix) {
-                self.accts = snap;
-                return Err((i, e));
-            }
-        }
-        self.accts.remove(&solana_program::sysvar::instructions::ID);
-        Ok(())
-    }
-}
-
-fn pyth_account(price: i64, conf: u64, expo: i32, t: i64) -> Acct {
-    use anchor_lang::{AnchorSerialize, Discriminator};
-    use pyth_solana_receiver_sdk::price_update::{PriceFeedMessage, PriceUpdateV2, VerificationLevel};
-    let p = PriceUpdateV2 { write_authority: Pubkey::default(), verification_level: VerificationLevel::Full,
-        price_message: PriceFeedMessage { feed_id: [9u8; 32], price, conf, exponent: expo, publish_time: t, prev_publish_time: t, ema_price: price, ema_conf: conf }, posted_slot: 1 };
-    let mut d = PriceUpdateV2::DISCRIMINATOR.to_vec();
-    p.serialize(&mut d).unwrap();
-    Acct { lamports: 1_000_000_000, data: d, owner: pyth_solana_receiver_sdk::ID, executable: false }
-}
-
-fn i80(x: f64) -> marginfi_type_crate::types::WrappedI80F48 { fixed::types::I80F48::from_num(x).into() }
-
-fn std_cfg(lwi: f64, lwm: f64) -> marginfi_type_crate::types::BankConfigCompact {
-    let mut c = marginfi_type_crate::types::BankConfigCompact::default();
-    c.asset_weight_init = i80(0.5); c.asset_weight_maint = i80(0.75);
-    c.liability_weight_init = i80(lwi); c.liability_weight_maint = i80(lwm);
-    c.deposit_limit = u64::MAX; c.borrow_limit = u64::MAX; c.oracle_max_age = 100;
-    c.risk_tier = marginfi_type_crate::types::RiskTier::Collateral;
-    c.operational_state = marginfi_type_crate::types::BankOperationalState::Operational;
-    c.interest_rate_config.hundred_util_rate = 1_000_000;
-    c
-}
-
-#[allow(clippy::too_many_arguments)]
-fn add_bank(vm: &mut Vm, group: Pubkey, admin: Pubkey, fee_state: Pubkey, wallet: Pubkey, mint: Pubkey, token_program: Pubkey, cfg: marginfi_type_crate::types::BankConfigCompact) -> (Pubkey, ProgramResult) {
-    let bank = Pubkey::new_unique();
-    let p = |s: &str| Pubkey::find_program_address(&[s.as_bytes(), bank.as_ref()], &marginfi::ID).0;
-    let ix = Instruction { program_id: marginfi::ID, accounts: marginfi::accounts::LendingPoolAddBank {
-        marginfi_group: group, admin, fee_payer: admin, fee_state, global_fee_wallet: wallet, bank_mint: mint, bank,
-        liquidity_vault_authority: p("liquidity_vault_auth"), liquidity_vault: p("liquidity_vault"),
-        insurance_vault_authority: p("insurance_vault_auth"), insurance_vault: p("insurance_vault"),
-        fee_vault_authority: p("fee_vault_auth"), fee_vault: p("fee_vault"), token_program, system_program: system_program::ID }.to_account_metas(Some(true)),
-        data: marginfi::instruction::LendingPoolAddBank { bank_config: cfg }.data() };
-    let r = vm.exec(&ix);
-    (bank, r)
-}
-
-fn bank_ref(vm: &Vm, bank: &Pubkey) -> marginfi_type_crate::types::Bank {
-    *bytemuck::from_bytes::<marginfi_type_crate::types::Bank>(&vm.accts[bank].data[8..])
-}
-fn fx(w: marginfi_type_crate::types::WrappedI80F48) -> f64 { fixed::types::I80F48::from(w).to_num::<f64>() }
-fn last_logs(n: usize) { LOGS.with(|l| for m in l.borrow().iter().rev().take(n).rev() { println!("  log: {m}") }); }
 
 fn main() {
-    program_stubs::set_syscall_stubs(Box::new(Stubs));
-    std::panic::set_hook(Box::new(|_| {}));
-    CLOCK.with(|c| c.borrow_mut().unix_timestamp = 1_700_000_000);
-    let mut vm = Vm { accts: BTreeMap::new() };
-    let admin = Pubkey::new_unique();
-    let wallet = Pubkey::new_unique();
-    vm.accts.insert(admin, Acct { lamports: 1_000_000_000_000, owner: system_program::ID, ..Default::default() });
-    for p in [system_program::ID, spl_token::ID, marginfi::ID] {
-        vm.accts.insert(p, Acct { lamports: 1, executable: true, owner: solana_program::bpf_loader::ID, ..Default::default() });
+    let args: Vec<String> = std::env::args().collect();
+    if args.len() < 3 {
+        usage();
     }
-    let (fee_state, _) = Pubkey::find_program_address(&[b"feestate"], &marginfi::ID);
-    let ix = Instruction {
-        program_id: marginfi::ID,
-        accounts: marginfi::accounts::InitFeeState { payer: admin, fee_state, system_program: system_program::ID }
-            .to_account_metas(Some(true)),
-        data: marginfi::instruction::InitGlobalFeeState {
-            admin,
-            fee_wallet: wallet,
-            bank_init_flat_sol_fee: 5000,
-            liquidation_flat_sol_fee: 0,
-            program_fee_fixed: fixed::types::I80F48::ZERO.into(),
-            program_fee_rate: fixed::types::I80F48::ZERO.into(),
-            liquidation_max_fee: fixed::types::I80F48::from_num(0.05).into(),
+    silence_program_stdout();
+    if std::env::var("MFV_PANIC_TRACE").is_err() {
+        std::panic::set_hook(Box::new(|_| {}));
+    }
+    let prop = args[1].clone();
+    let seed: u64 = std::env::var("VERIF_SEED").ok().and_then(|s| s.trim().parse::<i128>().ok()).map(|x| x as u64).unwrap_or(0);
+    let threads: usize = std::env::var("VERIF_THREADS").ok().and_then(|s| s.parse().ok()).unwrap_or(16);
+    let root = verif_root();
+    let t0 = Instant::now();
+
+    let (tier, report, is_replay) = if args[2] == "--replay" {
+        if args.len() < 4 {
+            usage();
         }
-        .data(),
-    };
-    println!("init fee state: {:?}", vm.exec(&ix));
-    let group = Pubkey::new_unique();
-    let ix = Instruction {
-        program_id: marginfi::ID,
-        accounts: marginfi::accounts::MarginfiGroupInitialize { marginfi_group: group, admin, fee_state, system_program: system_program::ID }
-            .to_account_metas(Some(true)),
-        data: marginfi::instruction::MarginfiGroupInitialize {}.data(),
-    };
-    println!("group init: {:?}", vm.exec(&ix));
-    // mint
-    let mint = Pubkey::new_unique();
-    let mut md = vec![0u8; spl_token::state::Mint::LEN];
-    spl_token::state::Mint { is_initialized: true, decimals: 6, supply: 0, ..Default::default() }.pack_into_slice(&mut md);
-    vm.accts.insert(mint, Acct { lamports: 1_000_000_000, data: md, owner: spl_token::ID, executable: false });
-    let bank = Pubkey::new_unique();
-    let pda = |s: &str| Pubkey::find_program_address(&[s.as_bytes(), bank.as_ref()], &marginfi::ID).0;
-    let mut cfg = marginfi_type_crate::types::BankConfigCompact::default();
-    cfg.asset_weight_init = fixed::types::I80F48::from_num(0.5).into();
-    cfg.asset_weight_maint = fixed::types::I80F48::from_num(0.75).into();
-    cfg.liability_weight_init = fixed::types::I80F48::from_num(1.5).into();
-    cfg.liability_weight_maint = fixed::types::I80F48::from_num(1.25).into();
-    cfg.deposit_limit = u64::MAX;
-    cfg.borrow_limit = u64::MAX;
-    cfg.oracle_max_age = 100; cfg.risk_tier = marginfi_type_crate::types::RiskTier::Collateral;
-    cfg.operational_state = marginfi_type_crate::types::BankOperationalState::Operational;
-    cfg.interest_rate_config.hundred_util_rate = 1_000_000;
-    let ix = Instruction {
-        program_id: marginfi::ID,
-        accounts: marginfi::accounts::LendingPoolAddBank {
-            marginfi_group: group,
-            admin,
-            fee_payer: admin,
-            fee_state,
-            global_fee_wallet: wallet,
-            bank_mint: mint,
-            bank,
-            liquidity_vault_authority: pda("liquidity_vault_auth"),
-            liquidity_vault: pda("liquidity_vault"),
-            insurance_vault_authority: pda("insurance_vault_auth"),
-            insurance_vault: pda("insurance_vault"),
-            fee_vault_authority: pda("fee_vault_auth"),
-            fee_vault: pda("fee_vault"),
-            token_program: spl_token::ID,
-            system_program: system_program::ID,
-        }
-        .to_account_metas(Some(true)),
-        data: marginfi::instruction::LendingPoolAddBank { bank_config: cfg }.data(),
-    };
-    let r = vm.exec(&ix);
-    println!("add bank: {:?}", r);
-    if r.is_err() {
-        LOGS.with(|l| for m in l.borrow().iter().rev().take(12).rev() { println!("  log: {m}") });
-    }
-    println!("wallet lamports {}", vm.accts.get(&wallet).map(|a| a.lamports).unwrap_or(0));
-    println!("bank acct len {:?} owner {:?}", vm.accts.get(&bank).map(|a| a.data.len()), vm.accts.get(&bank).map(|a| a.owner));
-    // fixed oracle price
-    let ix = Instruction {
-        program_id: marginfi::ID,
-        accounts: marginfi::accounts::LendingPoolSetFixedOraclePrice { group, admin, bank }.to_account_metas(Some(true)),
-        data: marginfi::instruction::LendingPoolSetFixedOraclePrice { price: fixed::types::I80F48::from_num(2).into() }.data(),
-    };
-    println!("fixed price: {:?}", vm.exec(&ix));
-    // user account
-    let user = Pubkey::new_unique();
-    vm.accts.insert(user, Acct { lamports: 10_000_000_000, owner: system_program::ID, ..Default::default() });
-    let macct = Pubkey::new_unique();
-    let ix = Instruction {
-        program_id: marginfi::ID,
-        accounts: marginfi::accounts::MarginfiAccountInitialize { marginfi_group: group, marginfi_account: macct, authority: user, fee_payer: user, system_program: system_program::ID }
-            .to_account_metas(Some(true)),
-        data: marginfi::instruction::MarginfiAccountInitialize {}.data(),
-    };
-    println!("acct init: {:?}", vm.exec(&ix));
-    let uta = Pubkey::new_unique();
-    let mut td = vec![0u8; spl_token::state::Account::LEN];
-    spl_token::state::Account { mint, owner: user, amount: 1_000_000_000, state: spl_token::state::AccountState::Initialized, ..Default::default() }
-        .pack_into_slice(&mut td);
-    vm.accts.insert(uta, Acct { lamports: 1_000_000_000, data: td, owner: spl_token::ID, executable: false });
-    let dep = |auth: Pubkey, amt: u64| Instruction {
-        program_id: marginfi::ID,
-        accounts: marginfi::accounts::LendingAccountDeposit {
-            group,
-            marginfi_account: macct,
-            authority: auth,
-            bank,
-            signer_token_account: uta,
-            liquidity_vault: pda("liquidity_vault"),
-            token_program: spl_token::ID,
-        }
-        .to_account_metas(Some(true)),
-        data: marginfi::instruction::LendingAccountDeposit { amount: amt, deposit_up_to_limit: None }.data(),
-    };
-    println!("deposit by stranger: {:?}", vm.exec(&dep(admin, 5)));
-    let t = std::time::Instant::now();
-    let mut ok = 0;
-    for i in 0..2000 {
-        CLOCK.with(|c| c.borrow_mut().unix_timestamp += 1);
-        if vm.exec(&dep(user, 1000 + i)).is_ok() {
-            ok += 1
-        }
-    }
-    println!("2000 deposits ok={} in {:?}", ok, t.elapsed());
-    let mut wa = marginfi::accounts::LendingAccountWithdraw {
-        group,
-        marginfi_account: macct,
-        authority: user,
-        bank,
-        destination_token_account: uta,
-        bank_liquidity_vault_authority: pda("liquidity_vault_auth"),
-        liquidity_vault: pda("liquidity_vault"),
-        token_program: spl_token::ID,
-    }
-    .to_account_metas(Some(true));
-    wa.push(AccountMeta::new_readonly(bank, false));
-    let ix = Instruction { program_id: marginfi::ID, accounts: wa, data: marginfi::instruction::LendingAccountWithdraw { amount: 77, withdraw_all: None }.data() };
-    let r = vm.exec(&ix);
-    println!("withdraw: {:?}", r);
-    if r.is_err() {
-        LOGS.with(|l| for m in l.borrow().iter().rev().take(12).rev() { println!("  log: {m}") });
-    }
-    let va = spl_token::state::Account::unpack(&vm.accts[&pda("liquidity_vault")].data).unwrap();
-    println!("vault amount {}", va.amount);
-
-    // ---------------- scenario 2: pyth bank, borrow, receivership bracket ----------------
-    let now = CLOCK.with(|c| c.borrow().unix_timestamp);
-    let mint2 = Pubkey::new_unique();
-    let mut md = vec![0u8; spl_token::state::Mint::LEN];
-    spl_token::state::Mint { is_initialized: true, decimals: 6, supply: 0, ..Default::default() }.pack_into_slice(&mut md);
-    vm.accts.insert(mint2, Acct { lamports: 1_000_000_000, data: md, owner: spl_token::ID, executable: false });
-    let bank2 = Pubkey::new_unique();
-    let pda2 = |s: &str| Pubkey::find_program_address(&[s.as_bytes(), bank2.as_ref()], &marginfi::ID).0;
-    let mut cfg2 = marginfi_type_crate::types::BankConfigCompact::default();
-    cfg2.asset_weight_init = fixed::types::I80F48::from_num(0.5).into();
-    cfg2.asset_weight_maint = fixed::types::I80F48::from_num(0.75).into();
-    cfg2.liability_weight_init = fixed::types::I80F48::from_num(1.5).into();
-    cfg2.liability_weight_maint = fixed::types::I80F48::from_num(1.25).into();
-    cfg2.deposit_limit = u64::MAX; cfg2.borrow_limit = u64::MAX; cfg2.oracle_max_age = 100;
-    cfg2.risk_tier = marginfi_type_crate::types::RiskTier::Collateral;
-    cfg2.operational_state = marginfi_type_crate::types::BankOperationalState::Operational;
-    cfg2.interest_rate_config.hundred_util_rate = 1_000_000;
-    let ix = Instruction { program_id: marginfi::ID, accounts: marginfi::accounts::LendingPoolAddBank {
-        marginfi_group: group, admin, fee_payer: admin, fee_state, global_fee_wallet: wallet, bank_mint: mint2, bank: bank2,
-        liquidity_vault_authority: pda2("liquidity_vault_auth"), liquidity_vault: pda2("liquidity_vault"),
-        insurance_vault_authority: pda2("insurance_vault_auth"), insurance_vault: pda2("insurance_vault"),
-        fee_vault_authority: pda2("fee_vault_auth"), fee_vault: pda2("fee_vault"), token_program: spl_token::ID, system_program: system_program::ID }.to_account_metas(Some(true)),
-        data: marginfi::instruction::LendingPoolAddBank { bank_config: cfg2 }.data() };
-    println!("add bank2: {:?}", vm.exec(&ix));
-    let oracle2 = Pubkey::new_unique();
-    vm.accts.insert(oracle2, pyth_account(1_000_000, 0, -6, now));
-    let mut m = marginfi::accounts::LendingPoolConfigureBankOracle { group, admin, bank: bank2 }.to_account_metas(Some(true));
-    m.push(AccountMeta::new_readonly(oracle2, false));
-    let ix = Instruction { program_id: marginfi::ID, accounts: m, data: marginfi::instruction::LendingPoolConfigureBankOracle { setup: 3, oracle: oracle2 }.data() };
-    println!("config oracle2: {:?}", vm.exec(&ix));
-    let mk_ta = |vm: &mut Vm, mint: Pubkey, owner: Pubkey, amount: u64| { let k = Pubkey::new_unique(); let mut td = vec![0u8; spl_token::state::Account::LEN];
-        spl_token::state::Account { mint, owner, amount, state: spl_token::state::AccountState::Initialized, ..Default::default() }.pack_into_slice(&mut td);
-        vm.accts.insert(k, Acct { lamports: 1_000_000_000, data: td, owner: spl_token::ID, executable: false }); k };
-    let user2 = Pubkey::new_unique();
-    vm.accts.insert(user2, Acct { lamports: 10_000_000_000, owner: system_program::ID, ..Default::default() });
-    let macct2 = Pubkey::new_unique();
-    let ix = Instruction { program_id: marginfi::ID, accounts: marginfi::accounts::MarginfiAccountInitialize { marginfi_group: group, marginfi_account: macct2, authority: user2, fee_payer: user2, system_program: system_program::ID }.to_account_metas(Some(true)), data: marginfi::instruction::MarginfiAccountInitialize {}.data() };
-    println!("acct2 init: {:?}", vm.exec(&ix));
-    let u2ta = mk_ta(&mut vm, mint2, user2, 1_000_000_000);
-    let ix = Instruction { program_id: marginfi::ID, accounts: marginfi::accounts::LendingAccountDeposit { group, marginfi_account: macct2, authority: user2, bank: bank2, signer_token_account: u2ta, liquidity_vault: pda2("liquidity_vault"), token_program: spl_token::ID }.to_account_metas(Some(true)), data: marginfi::instruction::LendingAccountDeposit { amount: 100_000_000, deposit_up_to_limit: None }.data() };
-    println!("user2 deposit bank2: {:?}", vm.exec(&ix));
-    // user1 borrows from bank2
-    let uta2 = mk_ta(&mut vm, mint2, user, 0);
-    let risk = |banks: &[(Pubkey, Option<Pubkey>)]| { let mut v: Vec<_> = banks.to_vec(); v.sort_by(|a, b| b.0.cmp(&a.0)); let mut out = vec![]; for (b, o) in v { out.push(AccountMeta::new_readonly(b, false)); if let Some(o) = o { out.push(AccountMeta::new_readonly(o, false)); } } out };
-    let mut m = marginfi::accounts::LendingAccountBorrow { group, marginfi_account: macct, authority: user, bank: bank2, destination_token_account: uta2, bank_liquidity_vault_authority: pda2("liquidity_vault_auth"), liquidity_vault: pda2("liquidity_vault"), token_program: spl_token::ID }.to_account_metas(Some(true));
-    m.extend(risk(&[(bank, None), (bank2, Some(oracle2))]));
-    let ix = Instruction { program_id: marginfi::ID, accounts: m.clone(), data: marginfi::instruction::LendingAccountBorrow { amount: 2_000_000 }.data() };
-    println!("borrow 2.0 B: {:?}", vm.exec(&ix));
-    let ix_big = Instruction { program_id: marginfi::ID, accounts: m, data: marginfi::instruction::LendingAccountBorrow { amount: 1_000_000 }.data() };
-    println!("borrow 1.0 more B (should fail health): {:?}", vm.exec(&ix_big));
-    // price of B -> $3
-    vm.accts.insert(oracle2, pyth_account(3_000_000, 0, -6, now));
-    let liq = Pubkey::new_unique();
-    vm.accts.insert(liq, Acct { lamports: 10_000_000_000, owner: system_program::ID, ..Default::default() });
-    let (record, _) = Pubkey::find_program_address(&[b"liq_record", macct.as_ref()], &marginfi::ID);
-    let ix_init = Instruction { program_id: marginfi::ID, accounts: marginfi::accounts::InitLiquidationRecord { marginfi_account: macct, fee_payer: liq, liquidation_record: record, system_program: system_program::ID }.to_account_metas(Some(true)), data: marginfi::instruction::MarginfiAccountInitLiqRecord {}.data() };
-    println!("init liq record: {:?}", vm.exec(&ix_init));
-    let lta_a = mk_ta(&mut vm, mint, liq, 0);
-    let lta_b = mk_ta(&mut vm, mint2, liq, 5_000_000);
-    let rk = risk(&[(bank, None), (bank2, Some(oracle2))]);
-    let mut ms = marginfi::accounts::StartLiquidation { marginfi_account: macct, liquidation_record: record, liquidation_receiver: liq, instruction_sysvar: solana_program::sysvar::instructions::ID }.to_account_metas(Some(true));
-    ms.extend(rk.clone());
-    let ix_start = Instruction { program_id: marginfi::ID, accounts: ms, data: marginfi::instruction::StartLiquidation {}.data() };
-    let mut mw = marginfi::accounts::LendingAccountWithdraw { group, marginfi_account: macct, authority: liq, bank, destination_token_account: lta_a, bank_liquidity_vault_authority: pda("liquidity_vault_auth"), liquidity_vault: pda("liquidity_vault"), token_program: spl_token::ID }.to_account_metas(Some(true));
-    mw.extend(rk.clone());
-    let ix_w = |a: u64| Instruction { program_id: marginfi::ID, accounts: mw.clone(), data: marginfi::instruction::LendingAccountWithdraw { amount: a, withdraw_all: None }.data() };
-    let mr = marginfi::accounts::LendingAccountRepay { group, marginfi_account: macct, authority: liq, bank: bank2, signer_token_account: lta_b, liquidity_vault: pda2("liquidity_vault"), token_program: spl_token::ID }.to_account_metas(Some(true));
-    let ix_r = |a: u64| Instruction { program_id: marginfi::ID, accounts: mr.clone(), data: marginfi::instruction::LendingAccountRepay { amount: a, repay_all: None }.data() };
-    let mut me = marginfi::accounts::EndLiquidation { marginfi_account: macct, liquidation_record: record, liquidation_receiver: liq, fee_state, global_fee_wallet: wallet, system_program: system_program::ID }.to_account_metas(Some(true));
-    me.extend(rk.clone());
-    let ix_end = Instruction { program_id: marginfi::ID, accounts: me, data: marginfi::instruction::EndLiquidation {}.data() };
-    let flags = |vm: &Vm| u64::from_le_bytes(vm.accts[&macct].data[8 + 64 + 1728..8 + 64 + 1728 + 8].try_into().unwrap());
-    println!("stranger withdraw outside bracket: {:?}", vm.exec_tx(&[ix_w(10)]));
-    println!("start alone (no end): {:?}", vm.exec_tx(&[ix_start.clone()]));
-    println!("start, withdraw (no end): {:?}", vm.exec_tx(&[ix_start.clone(), ix_w(10)]));
-    println!("start, borrow, end: {:?}", vm.exec_tx(&[ix_start.clone(), ix_big.clone(), ix_end.clone()]));
-    println!("start, W 1.9 (too much premium), R 1.0, end: {:?}", vm.exec_tx(&[ix_start.clone(), ix_w(1_900_000), ix_r(1_000_000), ix_end.clone()]));
-    println!("flags before good bracket: {:#x}", flags(&vm));
-    let wrap = |ix: &Instruction| { let mut d = ix.program_id.to_bytes().to_vec(); d.extend_from_slice(&ix.data); Instruction { program_id: proxy_id(), accounts: ix.accounts.clone(), data: d } };
-    println!("proxy[start], W, R, end: {:?}", vm.exec_tx(&[wrap(&ix_start), ix_w(1_500_000), ix_r(1_000_000), ix_end.clone()]));
-    println!("start, W, R, proxy[end]: {:?}", vm.exec_tx(&[ix_start.clone(), ix_w(1_500_000), ix_r(1_000_000), wrap(&ix_end)]));
-    println!("GOOD start, W 1.5, R 1.0, end: {:?}", vm.exec_tx(&[ix_start.clone(), ix_w(1_500_000), ix_r(1_000_000), ix_end.clone()]));
-    println!("flags after good bracket: {:#x}", flags(&vm));
-    let la = spl_token::state::Account::unpack(&vm.accts[&lta_a].data).unwrap().amount;
-    let lb = spl_token::state::Account::unpack(&vm.accts[&lta_b].data).unwrap().amount;
-    println!("liquidator got A={} has B={}", la, lb);
-
-    // ================= scenario 3: defect probes =================
-    println!("---- probes ----");
-    let opt = || marginfi_type_crate::types::BankConfigOpt::default();
-    let cfg_ix = |bank: Pubkey, o: marginfi_type_crate::types::BankConfigOpt| Instruction { program_id: marginfi::ID,
-        accounts: marginfi::accounts::LendingPoolConfigureBank { group, admin, bank }.to_account_metas(Some(true)),
-        data: marginfi::instruction::LendingPoolConfigureBank { bank_config_opt: o }.data() };
-    // group configure: all roles = admin
-    let ix = Instruction { program_id: marginfi::ID, accounts: marginfi::accounts::MarginfiGroupConfigure { marginfi_group: group, admin }.to_account_metas(Some(true)),
-        data: marginfi::instruction::MarginfiGroupConfigure { new_admin: admin, new_emode_admin: admin, new_curve_admin: admin, new_limit_admin: admin, new_emissions_admin: admin, new_metadata_admin: admin, new_risk_admin: admin, emode_max_init_leverage: None, emode_max_maint_leverage: None }.data() };
-    println!("group configure: {:?}", vm.exec(&ix));
-
-    // ---- F4: deposit_up_to_limit capacity computed before accrual
-    let b2 = bank_ref(&vm, &bank2);
-    println!("bank2 assets={} liabs={} asv={} lsv={}", fx(b2.total_asset_shares), fx(b2.total_liability_shares), fx(b2.asset_share_value), fx(b2.liability_share_value));
-    let mut o = opt(); o.deposit_limit = Some(100_000_100);
-    println!("set deposit limit: {:?}", vm.exec(&cfg_ix(bank2, o)));
-    CLOCK.with(|c| c.borrow_mut().unix_timestamp += 365 * 86400);
-    let snap = vm.accts.clone();
-    let dep2 = |amt: u64, up: bool| Instruction { program_id: marginfi::ID, accounts: marginfi::accounts::LendingAccountDeposit { group, marginfi_account: macct2, authority: user2, bank: bank2, signer_token_account: u2ta, liquidity_vault: pda2("liquidity_vault"), token_program: spl_token::ID }.to_account_metas(Some(true)), data: marginfi::instruction::LendingAccountDeposit { amount: amt, deposit_up_to_limit: Some(up) }.data() };
-    let r = vm.exec(&dep2(1000, true));
-    println!("F4 deposit_up_to_limit(1000) after 1y without prior accrue: {:?}", r); if r.is_err() { last_logs(4); }
-    vm.accts = snap.clone();
-    let acc_ix = Instruction { program_id: marginfi::ID, accounts: marginfi::accounts::LendingPoolAccrueBankInterest { group, bank: bank2 }.to_account_metas(Some(true)), data: marginfi::instruction::LendingPoolAccrueBankInterest {}.data() };
-    println!("accrue first: {:?}", vm.exec(&acc_ix));
-    let b2 = bank_ref(&vm, &bank2);
-    println!("bank2 after accrue: asset value={}", fx(b2.total_asset_shares) * fx(b2.asset_share_value));
-    println!("F4 control: same deposit after explicit accrue: {:?}", vm.exec(&dep2(1000, true)));
-    let b2 = bank_ref(&vm, &bank2);
-    println!("bank2 after deposit: asset value={} (limit 100000100)", fx(b2.total_asset_shares) * fx(b2.asset_share_value));
-    vm.accts = snap;
-
-    // ---- F5: leave KilledByBankruptcy via configure
-    {
-        let a = vm.accts.get_mut(&bank2).unwrap();
-        let b = bytemuck::from_bytes_mut::<marginfi_type_crate::types::Bank>(&mut a.data[8..]);
-        b.config.operational_state = marginfi_type_crate::types::BankOperationalState::KilledByBankruptcy;
-    }
-    println!("deposit into killed bank: {:?}", vm.exec(&dep2(10, false)));
-    let mut o = opt(); o.operational_state = Some(marginfi_type_crate::types::BankOperationalState::KilledByBankruptcy);
-    println!("configure -> Killed: {:?}", vm.exec(&cfg_ix(bank2, o)));
-    let mut o = opt(); o.operational_state = Some(marginfi_type_crate::types::BankOperationalState::Operational);
-    println!("F5 configure Killed -> Operational: {:?}", vm.exec(&cfg_ix(bank2, o)));
-    println!("F5 deposit into revived bank: {:?} state now {:?}", vm.exec(&dep2(10, false)), bank_ref(&vm, &bank2).config.operational_state);
-
-    // ---- F3: clone_emode without validation
-    let mint3 = Pubkey::new_unique();
-    let mut md = vec![0u8; spl_token::state::Mint::LEN];
-    spl_token::state::Mint { is_initialized: true, decimals: 6, supply: 0, ..Default::default() }.pack_into_slice(&mut md);
-    vm.accts.insert(mint3, Acct { lamports: 1_000_000_000, data: md, owner: spl_token::ID, executable: false });
-    let (bank3, r) = add_bank(&mut vm, group, admin, fee_state, wallet, mint3, spl_token::ID, std_cfg(1.0, 1.0));
-    println!("add bank3 (lw 1.0/1.0): {:?}", r);
-    let mut entries = [marginfi_type_crate::types::EmodeEntry { collateral_bank_emode_tag: 0, flags: 0, pad0: [0; 5], asset_weight_init: i80(0.0), asset_weight_maint: i80(0.0) }; marginfi_type_crate::types::MAX_EMODE_ENTRIES];
-    entries[0] = marginfi_type_crate::types::EmodeEntry { collateral_bank_emode_tag: 7, flags: 0, pad0: [0; 5], asset_weight_init: i80(1.0), asset_weight_maint: i80(1.1) };
-    let em_ix = |bank: Pubkey| Instruction { program_id: marginfi::ID, accounts: marginfi::accounts::LendingPoolConfigureBankEmode { group, emode_admin: admin, bank }.to_account_metas(Some(true)), data: marginfi::instruction::LendingPoolConfigureBankEmode { emode_tag: 7, entries }.data() };
-    println!("emode on bank (lw 1.5/1.25), entry 1.0/1.1: {:?}", vm.exec(&em_ix(bank)));
-    println!("same emode directly on bank3 (lw 1.0/1.0) [expect reject]: {:?}", vm.exec(&em_ix(bank3)));
-    let ix = Instruction { program_id: marginfi::ID, accounts: marginfi::accounts::LendingPoolCloneEmode { group, signer: admin, copy_from_bank: bank, copy_to_bank: bank3 }.to_account_metas(Some(true)), data: marginfi::instruction::LendingPoolCloneEmode {}.data() };
-    println!("F3 clone_emode bank -> bank3: {:?}", vm.exec(&ix));
-    let b3 = bank_ref(&vm, &bank3);
-    println!("F3 bank3 emode entry0 tag={} init={} maint={} vs lw_i={} lw_m={}", b3.emode.emode_config.entries[0].collateral_bank_emode_tag, fx(b3.emode.emode_config.entries[0].asset_weight_init), fx(b3.emode.emode_config.entries[0].asset_weight_maint), fx(b3.config.liability_weight_init), fx(b3.config.liability_weight_maint));
-
-    // ---- F1/F2: emissions flags
-    let mut o = opt(); o.freeze_settings = Some(true); o.permissionless_bad_debt_settlement = Some(true);
-    println!("freeze bank3 + permissionless: {:?} flags={:#b}", vm.exec(&cfg_ix(bank3, o)), bank_ref(&vm, &bank3).flags);
-    let emint = Pubkey::new_unique();
-    let mut md = vec![0u8; spl_token::state::Mint::LEN];
-    spl_token::state::Mint { is_initialized: true, decimals: 6, supply: 0, ..Default::default() }.pack_into_slice(&mut md);
-    vm.accts.insert(emint, Acct { lamports: 1_000_000_000, data: md, owner: spl_token::ID, executable: false });
-    let fund = mk_ta(&mut vm, emint, admin, 1_000_000_000);
-    let eauth = Pubkey::find_program_address(&[b"emissions_auth_seed", bank3.as_ref(), emint.as_ref()], &marginfi::ID).0;
-    let evault = Pubkey::find_program_address(&[b"emissions_token_account_seed", bank3.as_ref(), emint.as_ref()], &marginfi::ID).0;
-    let ix = Instruction { program_id: marginfi::ID, accounts: marginfi::accounts::LendingPoolSetupEmissions { group, delegate_emissions_admin: admin, bank: bank3, emissions_mint: emint, emissions_auth: eauth, emissions_token_account: evault, emissions_funding_account: fund, token_program: spl_token::ID, system_program: system_program::ID }.to_account_metas(Some(true)), data: marginfi::instruction::LendingPoolSetupEmissions { flags: 2, rate: 1000, total_emissions: 1_000_000 }.data() };
-    let r = vm.exec(&ix);
-    println!("F2 setup_emissions(flags=2): {:?} -> bank3 flags={:#b} (freeze=8, close_enabled=16, permless=4 should survive)", r, bank_ref(&vm, &bank3).flags); if r.is_err() { last_logs(6); }
-    let ix = Instruction { program_id: marginfi::ID, accounts: marginfi::accounts::LendingPoolUpdateEmissionsParameters { group, delegate_emissions_admin: admin, bank: bank3, emissions_mint: emint, emissions_token_account: evault, emissions_funding_account: fund, token_program: spl_token::ID }.to_account_metas(Some(true)), data: marginfi::instruction::LendingPoolUpdateEmissionsParameters { emissions_flags: Some(0b1111_1000), emissions_rate: None, additional_emissions: None }.data() };
-    let r = vm.exec(&ix);
-    println!("F1 update_emissions_parameters(flags=0b11111000): {:?} -> bank3 flags={:#b}", r, bank_ref(&vm, &bank3).flags); if r.is_err() { last_logs(6); }
-
-    // ================= batch 2 =================
-    println!("---- batch2 ----");
-    // P5: Token-2022 mint with transfer fee, bank on it, deposit & withdraw
-    {
-        use spl_token_2022::extension::{transfer_fee::{TransferFee, TransferFeeConfig}, BaseStateWithExtensionsMut, ExtensionType, StateWithExtensionsMut, BaseStateWithExtensions, StateWithExtensions};
-        vm.accts.insert(spl_token_2022::ID, Acct { lamports: 1, executable: true, owner: solana_program::bpf_loader::ID, ..Default::default() });
-        let tmint = Pubkey::new_unique();
-        let len = ExtensionType::try_calculate_account_len::<spl_token_2022::state::Mint>(&[ExtensionType::TransferFeeConfig]).unwrap();
-        let mut data = vec![0u8; len];
-        {
-            let mut st = StateWithExtensionsMut::<spl_token_2022::state::Mint>::unpack_uninitialized(&mut data).unwrap();
-            st.init_account_type().unwrap();
-            let c = st.init_extension::<TransferFeeConfig>(false).unwrap();
-            let f = TransferFee { epoch: 0.into(), maximum_fee: 5000u64.into(), transfer_fee_basis_points: 250u16.into() };
-            *c = TransferFeeConfig { transfer_fee_config_authority: Default::default(), withdraw_withheld_authority: Default::default(), withheld_amount: 0.into(), older_transfer_fee: f, newer_transfer_fee: f };
-            let mut m = spl_token_2022::state::Mint::default(); m.decimals = 6; m.is_initialized = true; st.base = m; st.pack_base();
-        }
-        vm.accts.insert(tmint, Acct { lamports: 1_000_000_000, data, owner: spl_token_2022::ID, executable: false });
-        let (tbank, r) = add_bank(&mut vm, group, admin, fee_state, wallet, tmint, spl_token_2022::ID, std_cfg(1.5, 1.25));
-        println!("P5 add T22-fee bank: {:?}", r); if r.is_err() { last_logs(6); }
-        let ix = Instruction { program_id: marginfi::ID, accounts: marginfi::accounts::LendingPoolSetFixedOraclePrice { group, admin, bank: tbank }.to_account_metas(Some(true)), data: marginfi::instruction::LendingPoolSetFixedOraclePrice { price: i80(1.0) }.data() };
-        println!("P5 fixed price: {:?}", vm.exec(&ix));
-        // user2 token account for tmint with TransferFeeAmount ext
-        let mk_t22 = |vm: &mut Vm, owner: Pubkey, amount: u64| { let k = Pubkey::new_unique();
-            let md = vm.accts[&tmint].data.clone(); let ms = StateWithExtensions::<spl_token_2022::state::Mint>::unpack(&md).unwrap();
-            let req = ExtensionType::get_required_init_account_extensions(&ms.get_extension_types().unwrap());
-            let space = ExtensionType::try_calculate_account_len::<spl_token_2022::state::Account>(&req).unwrap();
-            let mut d = vec![0u8; space];
-            { let mut st = StateWithExtensionsMut::<spl_token_2022::state::Account>::unpack_uninitialized(&mut d).unwrap();
-              st.init_account_extension_from_type(ExtensionType::TransferFeeAmount).unwrap();
-              st.base = spl_token_2022::state::Account { mint: tmint, owner, amount, state: spl_token_2022::state::AccountState::Initialized, ..Default::default() };
-              st.pack_base(); st.init_account_type().unwrap(); }
-            vm.accts.insert(k, Acct { lamports: 1_000_000_000, data: d, owner: spl_token_2022::ID, executable: false }); k };
-        let tta = mk_t22(&mut vm, user2, 10_000_000);
-        let tp = |s: &str| Pubkey::find_program_address(&[s.as_bytes(), tbank.as_ref()], &marginfi::ID).0;
-        let amt = |vm: &Vm, k: &Pubkey| StateWithExtensions::<spl_token_2022::state::Account>::unpack(&vm.accts[k].data).unwrap().base.amount;
-        let mut m = marginfi::accounts::LendingAccountDeposit { group, marginfi_account: macct2, authority: user2, bank: tbank, signer_token_account: tta, liquidity_vault: tp("liquidity_vault"), token_program: spl_token_2022::ID }.to_account_metas(Some(true));
-        m.push(AccountMeta::new_readonly(tmint, false));
-        let r = vm.exec(&Instruction { program_id: marginfi::ID, accounts: m, data: marginfi::instruction::LendingAccountDeposit { amount: 100_001, deposit_up_to_limit: None }.data() });
-        println!("P5 deposit 100001 into T22 bank: {:?}; user paid {} vault got {} (fee 2.5% cap 5000)", r, 10_000_000 - amt(&vm, &tta), amt(&vm, &tp("liquidity_vault"))); if r.is_err() { last_logs(8); }
-        let tb = bank_ref(&vm, &tbank);
-        println!("P5 bank shares {} ", fx(tb.total_asset_shares));
-        let mut m = marginfi::accounts::LendingAccountWithdraw { group, marginfi_account: macct2, authority: user2, bank: tbank, destination_token_account: tta, bank_liquidity_vault_authority: tp("liquidity_vault_auth"), liquidity_vault: tp("liquidity_vault"), token_program: spl_token_2022::ID }.to_account_metas(Some(true));
-        m.push(AccountMeta::new_readonly(tmint, false));
-        m.extend(risk(&[(bank2, Some(oracle2)), (tbank, None)]));
-        let before = amt(&vm, &tta);
-        vm.accts.insert(oracle2, pyth_account(3_000_000, 0, -6, CLOCK.with(|c| c.borrow().unix_timestamp)));
-        let r = vm.exec(&Instruction { program_id: marginfi::ID, accounts: m, data: marginfi::instruction::LendingAccountWithdraw { amount: 50_000, withdraw_all: None }.data() });
-        println!("P5 withdraw 50000: {:?}; user received {} vault now {} bank shares {}", r, amt(&vm, &tta) - before, amt(&vm, &tp("liquidity_vault")), fx(bank_ref(&vm, &tbank).total_asset_shares)); if r.is_err() { last_logs(8); }
-    }
-    // P7: flash loan bracket on macct2 (has 100 B + T22 deposit); borrow A (fixed $2 -> emode..)
-    {
-        let now = CLOCK.with(|c| c.borrow().unix_timestamp);
-        vm.accts.insert(oracle2, pyth_account(3_000_000, 0, -6, now));
-        let u2a = mk_ta(&mut vm, mint, user2, 0);
-        let fs = |end: u64| Instruction { program_id: marginfi::ID, accounts: marginfi::accounts::LendingAccountStartFlashloan { marginfi_account: macct2, authority: user2, ixs_sysvar: solana_program::sysvar::instructions::ID }.to_account_metas(Some(true)), data: marginfi::instruction::LendingAccountStartFlashloan { end_index: end }.data() };
-        let active: Vec<Pubkey> = { let a = bytemuck::from_bytes::<marginfi_type_crate::types::MarginfiAccount>(&vm.accts[&macct2].data[8..]); a.lending_account.balances.iter().filter(|b| b.active != 0).map(|b| b.bank_pk).collect() };
-        let orc = |b: &Pubkey| if *b == bank2 { Some(oracle2) } else { None };
-        let mut rk_banks: Vec<(Pubkey, Option<Pubkey>)> = active.iter().map(|b| (*b, orc(b))).collect();
-        if !active.contains(&bank) { rk_banks.push((bank, None)); }
-        let rk2 = risk(&rk_banks);
-        let mut me = marginfi::accounts::LendingAccountEndFlashloan { marginfi_account: macct2, authority: user2 }.to_account_metas(Some(true));
-        me.extend(rk2.clone());
-        let fe = Instruction { program_id: marginfi::ID, accounts: me, data: marginfi::instruction::LendingAccountEndFlashloan {}.data() };
-        let mut mb = marginfi::accounts::LendingAccountBorrow { group, marginfi_account: macct2, authority: user2, bank, destination_token_account: u2a, bank_liquidity_vault_authority: pda("liquidity_vault_auth"), liquidity_vault: pda("liquidity_vault"), token_program: spl_token::ID }.to_account_metas(Some(true));
-        mb.extend(rk2.clone());
-        let bor = |a: u64| Instruction { program_id: marginfi::ID, accounts: mb.clone(), data: marginfi::instruction::LendingAccountBorrow { amount: a }.data() };
-        let mrp = marginfi::accounts::LendingAccountRepay { group, marginfi_account: macct2, authority: user2, bank, signer_token_account: u2a, liquidity_vault: pda("liquidity_vault"), token_program: spl_token::ID }.to_account_metas(Some(true));
-        let rep_all = Instruction { program_id: marginfi::ID, accounts: mrp, data: marginfi::instruction::LendingAccountRepay { amount: 0, repay_all: Some(true) }.data() };
-        // bank A vault has ~2.5M units; user2 collateral 100 B*$3*0.5=$150 -> can borrow lots; use amount beyond vault? utilization check. Make borrow big relative to health: borrow 2_400_000 A ($4.8*1.5=7.2 < 150) healthy. So to be unhealthy crash B price.
-        vm.accts.insert(oracle2, pyth_account(10_000, 0, -6, now)); // B = $0.01 -> collateral $0.5 init
-        println!("P7 plain borrow 1.0 A ($2*1.5=$3 > $0.5): {:?}", vm.exec_tx(&[bor(1_000_000)]));
-        println!("P7 [start(2), borrow, end] unhealthy at end: {:?}", vm.exec_tx(&[fs(2), bor(1_000_000), fe.clone()]));
-        println!("P7 [start(3), borrow, repay_all, end]: {:?}", vm.exec_tx(&[fs(3), bor(1_000_000), rep_all.clone(), fe.clone()]));
-        println!("P7 [start(1) pointing at borrow]: {:?}", vm.exec_tx(&[fs(1), bor(1_000_000), fe.clone()]));
-        println!("P7 [start(5) out of range]: {:?}", vm.exec_tx(&[fs(5), bor(1_000_000), fe.clone()]));
-        println!("P7 [start(2), borrow] no end at idx2: {:?}", vm.exec_tx(&[fs(2), bor(1_000_000)]));
-        let fl = u64::from_le_bytes(vm.accts[&macct2].data[8 + 64 + 1728..8 + 64 + 1728 + 8].try_into().unwrap());
-        println!("P7 macct2 flags after: {:#x}", fl);
-        vm.accts.insert(oracle2, pyth_account(3_000_000, 0, -6, now));
-    }
-    // P6: bankruptcy of macct on bank2 (debt ~1.0 B): crash A price via fixed oracle
-    {
-        let ix = Instruction { program_id: marginfi::ID, accounts: marginfi::accounts::LendingPoolSetFixedOraclePrice { group, admin, bank }.to_account_metas(Some(true)), data: marginfi::instruction::LendingPoolSetFixedOraclePrice { price: i80(0.00001) }.data() };
-        println!("P6 crash A price: {:?}", vm.exec(&ix));
-        let pre = bank_ref(&vm, &bank2);
-        let mut m = marginfi::accounts::LendingPoolHandleBankruptcy { group, signer: admin, bank: bank2, marginfi_account: macct, liquidity_vault: pda2("liquidity_vault"), insurance_vault: pda2("insurance_vault"), insurance_vault_authority: pda2("insurance_vault_auth"), token_program: spl_token::ID }.to_account_metas(Some(true));
-        m.extend(risk(&[(bank, None), (bank2, Some(oracle2))]));
-        let ixb = Instruction { program_id: marginfi::ID, accounts: m.clone(), data: marginfi::instruction::LendingPoolHandleBankruptcy {}.data() };
-        let mut ms = m.clone(); ms[1] = AccountMeta::new_readonly(user2, true);
-        println!("P6 bankruptcy by stranger(user2): {:?}", vm.exec(&Instruction { program_id: marginfi::ID, accounts: ms, data: marginfi::instruction::LendingPoolHandleBankruptcy {}.data() }));
-        let r = vm.exec(&ixb);
-        let post = bank_ref(&vm, &bank2);
-        println!("P6 bankruptcy by admin: {:?}; asv {} -> {}; liab shares {} -> {}", r, fx(pre.asset_share_value), fx(post.asset_share_value), fx(pre.total_liability_shares), fx(post.total_liability_shares)); if r.is_err() { last_logs(8); }
-        let fl = u64::from_le_bytes(vm.accts[&macct].data[8 + 64 + 1728..8 + 64 + 1728 + 8].try_into().unwrap());
-        println!("P6 macct flags after: {:#x}", fl);
-    }
-    // P8/P9: pure oracle adapter calls
-    {
-        use marginfi::state::price::{OraclePriceFeedAdapter, OraclePriceType, PriceAdapter, PriceBias};
-        use switchboard_on_demand::{PullFeedAccountData, Discriminator as SwbDisc};
-        let now = CLOCK.with(|c| c.borrow().unix_timestamp);
-        let mut feed: PullFeedAccountData = bytemuck::Zeroable::zeroed();
-        feed.result.value = 25 * 10i128.pow(17); // 2.5
-        feed.result.std_dev = 10i128.pow(16); // 0.01
-        feed.last_update_timestamp = now - 100;
-        let mut d = <PullFeedAccountData as SwbDisc>::DISCRIMINATOR.to_vec(); d.extend_from_slice(bytemuck::bytes_of(&feed));
-        let swb_owner = marginfi::constants::SWITCHBOARD_PULL_ID;
-        let key = Pubkey::new_unique();
-        let mut b = bank_ref(&vm, &bank2);
-        b.config.oracle_setup = marginfi_type_crate::types::OracleSetup::SwitchboardPull; b.config.oracle_keys[0] = key;
-        let mut lam = 1u64; let mut data = d.clone();
-        let ai = AccountInfo::new(&key, false, false, &mut lam, &mut data, &swb_owner, false, 0);
-        let ais = [ai]; let ais: &[AccountInfo] = unsafe { std::mem::transmute(&ais[..]) };
-        let clock = CLOCK.with(|c| c.borrow().clone());
-        for age in [99u64, 100, 101] {
-            let r = OraclePriceFeedAdapter::try_from_bank_with_max_age(&b, ais, &clock, age);
-            match r { Ok(a) => println!("P8 swb max_age={} ok low={} high={}", age, a.get_price_of_type(OraclePriceType::RealTime, Some(PriceBias::Low), 0).unwrap(), a.get_price_of_type(OraclePriceType::RealTime, Some(PriceBias::High), 0).unwrap()), Err(e) => println!("P8 swb max_age={} err {:?}", age, e) }
-        }
-        // Kamino reserve
-        let mut res: kamino_mocks::state::MinimalReserve = bytemuck::Zeroable::zeroed();
-        res.slot = clock.slot; res.available_amount = 1_100_000; res.mint_total_supply = 1_000_000; res.mint_decimals = 6;
-        let mut rd = kamino_mocks::state::RESERVE_DISCRIMINATOR.to_vec(); rd.extend_from_slice(bytemuck::bytes_of(&res));
-        let rkey = Pubkey::new_unique(); let kowner = kamino_mocks::kamino_lending::ID;
-        let okey = Pubkey::new_unique(); let powner = pyth_solana_receiver_sdk::ID;
-        let mut pdata = pyth_account(2_000_000, 1000, -6, now).data;
-        b.config.oracle_setup = marginfi_type_crate::types::OracleSetup::KaminoPythPush; b.config.oracle_keys[0] = okey; b.config.oracle_keys[1] = rkey;
-        let (mut l1, mut l2) = (1u64, 1u64);
-        let a1 = AccountInfo::new(&okey, false, false, &mut l1, &mut pdata, &powner, false, 0);
-        let a2 = AccountInfo::new(&rkey, false, false, &mut l2, &mut rd, &kowner, false, 0);
-        let ais = [a1, a2]; let ais: &[AccountInfo] = unsafe { std::mem::transmute(&ais[..]) };
-        match OraclePriceFeedAdapter::try_from_bank_with_max_age(&b, ais, &clock, 100) { Ok(a) => println!("P9 kamino-pyth price={} (2.0 * 1.1 expected) low={}", a.get_price_of_type(OraclePriceType::RealTime, None, 0).unwrap(), a.get_price_of_type(OraclePriceType::RealTime, Some(PriceBias::Low), 0).unwrap()), Err(e) => println!("P9 err {:?}", e) }
-    }
-    // P10: proptest from a binary, fixed seed, threads, shrinking of op vectors
-    {
-        use proptest::prelude::*; use proptest::test_runner::{Config, RngAlgorithm, TestRng, TestRunner, TestError};
-        let run = |seed: u64| {
-            let mut seed_bytes = [0u8; 32]; seed_bytes[..8].copy_from_slice(&seed.to_le_bytes());
-            let mut runner = TestRunner::new_with_rng(Config { cases: 500, failure_persistence: None, max_shrink_iters: 10_000, ..Config::default() }, TestRng::from_seed(RngAlgorithm::ChaCha, &seed_bytes));
-            let strat = proptest::collection::vec((0u8..4, 1u64..1_000_000), 0..40);
-            let r = runner.run(&strat, |ops| { let mut acc = 0u64; for (k, a) in &ops { if *k == 3 { acc += a; } } prop_assert!(acc < 1_500_000, "acc {}", acc); Ok(()) });
-            match r { Err(TestError::Fail(_, v)) => format!("{:?}", v), other => format!("{:?}", other.is_ok()) }
+        let txt = std::fs::read_to_string(&args[3]).unwrap_or_else(|e| {
+            eprintln!("cannot read {}: {e}", args[3]);
+            std::process::exit(2)
+        });
+        let v: Value = serde_json::from_str(&txt).unwrap_or_else(|e| {
+            eprintln!("bad replay json: {e}");
+            std::process::exit(2)
+        });
+        let case = v.get("case").cloned().unwrap_or(v.clone());
+        let ctx = Ctx { prop: prop.clone(), tier: Tier::Quick, seed, threads };
+        (Tier::Quick, mfv::props::replay(&ctx, &case), true)
+    } else {
+        let tier = match args[2].as_str() {
+            "quick" => Tier::Quick,
+            "thorough" => Tier::Thorough,
+            _ => usage(),
         };
-        let hs: Vec<_> = (0..4u64).map(|i| std::thread::spawn(move || run(7 + i))).collect();
-        let outs: Vec<String> = hs.into_iter().map(|h| h.join().unwrap()).collect();
-        println!("P10 shrunk failures per worker: {:?}", outs);
-        println!("P10 rerun seed 7 deterministic: {}", run(7) == outs[0]);
+        let ctx = Ctx { prop: prop.clone(), tier, seed, threads };
+        (tier, mfv::props::run(&ctx), false)
+    };
+    let Some(report) = report else {
+        eprintln!("unknown property {prop}");
+        std::process::exit(2)
+    };
+    let wall = t0.elapsed().as_secs_f64();
+
+    // known findings
+    let known = load_known_findings(&root);
+    let mut real: Vec<&Violation> = vec![];
+    let mut printed_known = std::collections::BTreeSet::new();
+    let mut known_hits = 0u64;
+    for v in &report.violations {
+        if let Some(k) = known.iter().find(|k| k.status == "known" && k.property == prop && k.signature == v.signature) {
+            known_hits += 1;
+            if printed_known.insert(k.signature.clone()) {
+                outln!("KNOWN-FINDING: property={} {} [{}]", prop, k.what, k.signature);
+            }
+        } else {
+            real.push(v);
+        }
     }
+
+    // replay files for real violations (distinct signatures first)
+    let mut lines = vec![];
+    if !real.is_empty() {
+        let _ = std::fs::create_dir_all(format!("{root}/replays"));
+        let mut seen = std::collections::BTreeSet::new();
+        for v in real.iter() {
+            if !seen.insert(v.signature.clone()) || seen.len() > 10 {
+                continue;
+            }
+            let body = json!({"property": prop, "signature": v.signature, "message": v.message, "case": v.replay});
+            let h = hash_json(&body);
+            let path = format!("{root}/replays/{prop}-{h:016x}.json");
+            let _ = std::fs::write(&path, serde_json::to_string_pretty(&body).unwrap());
+            lines.push(format!("VIOLATION property={prop} replay={path}"));
+            outln!("  violated clause: {} -- {}", v.signature, v.message);
+        }
+    }
+
+    // evidence (not on replay)
+    if !is_replay {
+        let mut cov = serde_json::Map::new();
+        cov.insert("evaluations".into(), json!(report.evaluations));
+        cov.insert("distinct_nontrivial".into(), json!(report.nontrivial.len() as u64));
+        cov.insert("rule".into(), json!(report.rule));
+        cov.insert("samples".into(), json!(report.samples));
+        cov.insert("labels".into(), json!(report.labels));
+        cov.insert("exhaustive".into(), json!(report.exhaustive));
+        cov.insert("known_finding_hits".into(), json!(known_hits));
+        for (k, v) in &report.extra {
+            cov.insert(k.clone(), v.clone());
+        }
+        let mut assumptions = report.assumptions.clone();
+        if assumptions.is_empty() {
+            assumptions = STD_ASSUMPTIONS.iter().map(|s| s.to_string()).collect();
+        }
+        let ev = json!({
+            "property_id": prop, "tier": tier.name(), "seed": seed as i64, "level": "exploration",
+            "coverage": cov, "assumptions": assumptions, "wall_s": wall, "violations": real.len() as u64,
+        });
+        let _ = std::fs::create_dir_all(format!("{root}/evidence"));
+        let _ = std::fs::write(format!("{root}/evidence/{prop}.json"), serde_json::to_string_pretty(&ev).unwrap());
+    }
+
+    outln!(
+        "{} {} seed={} evaluations={} distinct_nontrivial={} violations={} known_hits={} wall={:.1}s",
+        prop, if is_replay { "replay" } else { tier.name() }, seed, report.evaluations, report.nontrivial.len(), real.len(), known_hits, wall
+    );
+    if std::env::var("MFV_VERBOSE").is_ok() {
+        for (k, v) in &report.labels {
+            outln!("  label {k}: {v}");
+        }
+        for (k, v) in &report.extra {
+            outln!("  extra {k}: {v}");
+        }
+    }
+    for e in &report.engine_errors {
+        outln!("ENGINE-ERROR: {e}");
+    }
+    for l in &lines {
+        outln!("{l}");
+    }
+    if !lines.is_empty() {
+        std::process::exit(1);
+    }
+    if !report.engine_errors.is_empty() {
+        std::process::exit(2);
+    }
+    if !is_replay && (report.nontrivial.len() as u64) < report.nontrivial_floor {
+        outln!("INCONCLUSIVE: only {} distinct non-trivial cases (floor {})", report.nontrivial.len(), report.nontrivial_floor);
+        std::process::exit(2);
+    }
+    std::process::exit(0);
 }
